@@ -48,6 +48,8 @@ RULE = (
     ", partials)."
     " One sequence in four runs on a loop with asyncio.eager_task_factory; Trap.source is rec"
     "orded as the callback sees it when called."
+    " One listener ignores 1344 datagrams in bursts with a valid notification after each burs"
+    "t."
 )
 ASSUMPTIONS = [
     "garbage is generated without the octet 0x80 (the indefinite-length spin of the external BER library belongs to C20 and would hang the listener)",
